@@ -136,8 +136,10 @@ def oracle_c09(case, obs):
                 u0 = gs[0][0]
                 if specs.get(u0, {}).get("cls") != cc.HALTON_CLASS:
                     fails.append(("rl-bootstrap", f"op {k}: first batch by a non-Halton sampler uid {u0}"))
+            learned = obs.get("learned", [])
             for g, (u, c, idxs) in enumerate(gs[1:], start=1):
-                a = obs["actions"][g - 1] if g - 1 < len(obs["actions"]) else None
+                # the g-th agent-chosen batch is the one the agent's g-th learn call is about (C10): its action is the choice
+                a = learned[g - 1][0] if g - 1 < len(learned) else None
                 if a is None or a >= len(tup) or tup[a][1] != u:
                     fails.append(("rl-choice", f"op {k}: batch {g} by uid {u}, agent chose {a}"))
                 if u not in supplied and u != 90:
